@@ -21,7 +21,7 @@ open Driver
 def dispatch (fs : List String) : String :=
   match fs with
   | "c09" :: rest => Driver.c09 IronCalc.Generated.parenStringify rest
-  | "c16" :: rest => Driver.c09 IronCalc.Generated.parenMove rest
+  | "c16" :: rest => Driver.c16 IronCalc.Generated.parenStringify IronCalc.Generated.parenMove rest
   | "c18" :: rest => Driver.c18 rest
   | "c19" :: rest => Driver.c19 rest
   | "c21" :: rest => Driver.c21 rest
